@@ -374,7 +374,9 @@ class SymHandle:
         return self.kernel.dropped is None and self.error is None
 
     def __call__(self, *args, **kw):
-        key = tuple(a.uid for a in args) + tuple(sorted(kw.items()))
+        if self.kernel.dropped:
+            raise irparse.IRUnsupported("kernel %s was dropped: %s" % (self.kernel.name, self.kernel.dropped[:160]))
+        key = tuple(a.uid for a in args) + tuple(sorted((k, v) for k, v in kw.items() if not callable(v)))
         if key in self.cache:
             return self.cache[key]
         o = dict(self.opts)
